@@ -629,6 +629,9 @@ def atoms_full(marker=""):
         S(""),
         ("raw", '"a\\"b  c' + m + '"'),
         ("raw", "'it\\'s, " + m + "'"),
+        # an escaped backslash right before the closing quote (does not escape it), alone and next to an escaped quote
+        ("raw", '"x' + m + '\\\\"'),
+        ("raw", "'" + m + "\\\\\\' z\\\\'"),
         V("x"),
         V("d"),
         V("s"),
@@ -653,6 +656,8 @@ def atoms_full(marker=""):
         ("tpl", (("tag", "{% include 'c02inc.html' %}", "INC"),)),
         ("tpl", (("text", "<"), ("tag", "{% include 'c02inc.html' %}", "INC"), ("text", ">"))),
         ("tpl", (("text", "a" + m + " "), ("comment", "c"))),
+        # a line break inside the quoted string: it is content, the nested expressions are still evaluated
+        ("tpl", (("text", "p\n"), ("var", leaf(V("s"))), ("text", "\n q"))),
     ] + tpl_quote_atoms(m) + [V(n) for n in TYPE_VARS]
 
 
